@@ -442,8 +442,10 @@ size_t cpc_compressor<A>::safe_length_for_compressed_window_buf(uint32_t k) { //
 }
 
 template<typename A>
-uint8_t cpc_compressor<A>::determine_pseudo_phase(uint8_t lg_k, uint32_t c) {
-  const uint32_t k = 1 << lg_k;
+uint8_t cpc_compressor<A>::determine_pseudo_phase(uint8_t lg_k, uint32_t num_coupons) {
+  // 64-bit arithmetic: 1000 * c and 2375 * k do not fit in 32 bits for large lg_k
+  const uint64_t k = 1ULL << lg_k;
+  const uint64_t c = num_coupons;
   // This mid-range logic produces pseudo-phases. They are used to select encoding tables.
   // The thresholds were chosen by hand after looking at plots of measured compression.
   if (1000 * c < 2375 * k) {
